@@ -68,7 +68,7 @@ pub fn run_pool<A: Agg>(n: u64, workers: usize, f: impl Fn(u64, &mut A) + Send +
 // Counters
 // ---------------------------------------------------------------------------------------
 
-#[derive(Default, Clone, Debug)]
+#[derive(Default, Clone, Debug, Serialize, Deserialize)]
 pub struct Counters {
     pub n: BTreeMap<String, u64>,
     pub sets: BTreeMap<String, BTreeSet<u64>>,
@@ -210,6 +210,9 @@ pub struct Evidence {
 
 impl Evidence {
     pub fn write(&self) {
+        if std::env::var("VERIF_NO_EVIDENCE").is_ok() {
+            return;
+        }
         let mut cov = serde_json::Map::new();
         cov.insert("evaluations".into(), json!(self.evaluations));
         cov.insert("distinct_nontrivial".into(), json!(self.distinct_nontrivial));
@@ -243,7 +246,11 @@ impl Evidence {
 }
 
 pub fn write_replay(name: &str, doc: &serde_json::Value) -> String {
-    let dir = format!("{}/replays", verif_dir());
+    let dir = if std::env::var("VERIF_NO_EVIDENCE").is_ok() {
+        format!("{}/blots-sim-replays", std::env::temp_dir().to_string_lossy())
+    } else {
+        format!("{}/replays", verif_dir())
+    };
     let _ = std::fs::create_dir_all(&dir);
     let path = format!("{}/{}.json", dir, name);
     if std::fs::write(&path, serde_json::to_string_pretty(doc).unwrap() + "\n").is_err() {
@@ -255,4 +262,81 @@ pub fn write_replay(name: &str, doc: &serde_json::Value) -> String {
 
 pub fn tier() -> String {
     std::env::var("VERIF_TIER").unwrap_or_else(|_| "quick".to_string())
+}
+
+// ---------------------------------------------------------------------------------------
+// Process sharding. blots-core keeps a process-global Mutex<Vec<..>> of call statistics that
+// every evaluator call pushes to; sixteen worker threads in one process serialise on it.
+// Runs are therefore spread over child processes (one worker each by default). Run i is a
+// pure function of (seed, engine, i) and aggregates are commutative, so the batch result
+// does not depend on the number of shards.
+// ---------------------------------------------------------------------------------------
+
+pub fn shards() -> usize {
+    std::env::var("VERIF_SHARDS").ok().and_then(|s| s.parse::<usize>().ok()).unwrap_or_else(workers).max(1)
+}
+
+/// Indices of shard k of s over 0..n (strided, so cost variations spread evenly).
+pub fn shard_indices(n: u64, k: u64, s: u64) -> Vec<u64> {
+    (0..n).filter(|i| i % s == k).collect()
+}
+
+pub fn run_indices<A: Agg>(idx: Vec<u64>, workers: usize, f: impl Fn(u64, &mut A) + Send + Sync + 'static) -> A {
+    let idx = Arc::new(idx);
+    let n = idx.len() as u64;
+    let idx2 = idx.clone();
+    run_pool(n, workers, move |j, a: &mut A| f(idx2[j as usize], a))
+}
+
+pub fn run_sharded<A: Agg + serde::Serialize + serde::de::DeserializeOwned>(engine: &str, n: u64, local: impl Fn(Vec<u64>, usize) -> A) -> A {
+    let s = shards();
+    if s <= 1 || n < 2 * s as u64 || std::env::var("VERIF_IN_SHARD").is_ok() {
+        return local((0..n).collect(), workers());
+    }
+    let exe = std::env::current_exe().expect("current_exe");
+    let dir = format!("{}/blots-sim-shards-{}", std::env::temp_dir().to_string_lossy(), std::process::id());
+    let _ = std::fs::create_dir_all(&dir);
+    let per = (workers() / s).max(1);
+    let mut children = vec![];
+    for k in 0..s {
+        let out = format!("{}/{}-{}.json", dir, engine, k);
+        let child = std::process::Command::new(&exe)
+            .args(["shard", engine, &n.to_string(), &k.to_string(), &s.to_string(), &out])
+            .env("VERIF_IN_SHARD", "1")
+            .env("VERIF_WORKERS", per.to_string())
+            .stdin(std::process::Stdio::null())
+            .spawn();
+        match child {
+            Ok(c) => children.push((c, out)),
+            Err(e) => {
+                eprintln!("HARNESS-ERROR: cannot spawn shard: {}", e);
+                std::process::exit(2);
+            }
+        }
+    }
+    let mut total = A::default();
+    for (mut c, out) in children {
+        let st = c.wait().expect("wait shard");
+        if !st.success() {
+            eprintln!("HARNESS-ERROR: shard process failed ({:?})", st);
+            std::process::exit(2);
+        }
+        let txt = std::fs::read_to_string(&out).unwrap_or_default();
+        match serde_json::from_str::<A>(&txt) {
+            Ok(a) => total.merge(a),
+            Err(e) => {
+                eprintln!("HARNESS-ERROR: bad shard result {}: {}", out, e);
+                std::process::exit(2);
+            }
+        }
+    }
+    let _ = std::fs::remove_dir_all(&dir);
+    total
+}
+
+pub fn write_shard_result<A: serde::Serialize>(out: &str, a: &A) {
+    if std::fs::write(out, serde_json::to_string(a).unwrap()).is_err() {
+        eprintln!("HARNESS-ERROR: cannot write shard result {}", out);
+        std::process::exit(2);
+    }
 }
